@@ -98,6 +98,7 @@ def adv_method(models, eng, ref, o, name, args, kws, st):
     bad = st.clone()
     ec = fresh('stream_exc', t.INT)
     bad.assume(eng.exc_sub_term(ec, 'Exception'))
+    bad.ghost['io_failed'] = t.TRUE          # C06 ghost: a stream operation failed on this path
     out.append((bad, Raised(VExc(ec, NONE, origin='failing stream.%s' % name, from_stream=True))))
     short = o.extra.get('__short', VBool(t.FALSE)).t
     if name == 'read':
